@@ -137,6 +137,10 @@ func (sr *SoftResource) SetID(id string) {
 func (sr *SoftResource) SetType(typ *Type) {
 	sr.check()
 	sr.Type = typ
+
+	// The values of fields the new type does not have are dropped now, so
+	// that such a field reads as its zero value if it is added again later.
+	sr.check()
 }
 
 // Set sets the value associated to the field named key to v.
